@@ -24,6 +24,7 @@ import Mathlib.Algebra.Order.Field.Basic
 import Mathlib.Analysis.SpecialFunctions.Pow.Real
 import Mathlib.Analysis.SpecialFunctions.Trigonometric.Inverse
 import Mathlib.Analysis.SpecialFunctions.Trigonometric.Arctan
+import Mathlib.Analysis.Real.Pi.Bounds
 
 set_option linter.unusedSectionVars false
 set_option linter.unusedVariables false
@@ -104,7 +105,7 @@ theorem needle_aspect (ar : α) (hc : ∀ x : α, Trans.cbrt x ^ 3 = x) (har : a
   have hk : (Trans.cbrt (3 / (4 * π)) : α) ≠ 0 :=
     cbrt_ne_zero hc (div_ne_zero (by norm_num) (mul_ne_zero (by norm_num) hpi))
   have hs : (Trans.cbrt (1 / ar) : α) ≠ 0 := cbrt_ne_zero hc (one_div_ne_zero har)
-  refine ⟨?_, rfl⟩
+  refine ⟨?_, trivial⟩
   field_simp
 
 /-- **plate, unit volume** -/
@@ -128,7 +129,9 @@ theorem plate_aspect (ar : α) (hc : ∀ x : α, Trans.cbrt x ^ 3 = x) (har : ar
     cbrt_ne_zero hc (div_ne_zero (by norm_num) (mul_ne_zero (by norm_num) hpi))
   have hs : (Trans.cbrt (1 / (ar * ar)) : α) ≠ 0 :=
     cbrt_ne_zero hc (one_div_ne_zero (mul_ne_zero har har))
-  refine ⟨?_, rfl⟩
+  generalize (Trans.cbrt (3 / (4 * π)) : α) = k at hk
+  generalize (Trans.cbrt (1 / (ar * ar)) : α) = s at hs
+  refine ⟨?_, trivial⟩
   field_simp
 
 /-- **sphere, unit volume and aspect ratio 1** (the argument is ignored) -/
@@ -160,7 +163,7 @@ theorem cuboid_aspect (ar : α) (hc : ∀ x : α, Trans.cbrt x ^ 3 = x) (har : a
     ∧ cuboid_normalRadii_r0 ar = cuboid_normalRadii_r1 ar := by
   simp only [cuboid_normalRadii_r0, cuboid_normalRadii_r1, cuboid_normalRadii_r2]
   have hs : (Trans.cbrt (1 / ar) : α) ≠ 0 := cbrt_ne_zero hc (one_div_ne_zero har)
-  refine ⟨?_, rfl⟩
+  refine ⟨?_, trivial⟩
   field_simp
 
 /-! ## equivalent-radius factor: radius of the sphere with the volume of the shape whose short
@@ -197,6 +200,694 @@ theorem plate_eqRadius_normalRadii (ar : α) (hc : ∀ x : α, Trans.cbrt x ^ 3 
   simp only [plate_eqRadius, plate_normalRadii_r2, mul_pow, hc, npow]
   field_simp
 
+/-! ## thermodynamic factor = area of the shape / area of the equal-volume sphere,
+kinetic factor = capacitance of the spheroid / radius of the equal-volume sphere -/
+
+/-- `R² = a²·P` from equal volume `R³ = a³·ar` and the power law `P³ = ar²` (P = ar^(2/3)) -/
+theorem sq_of_equal_volume {R a ar P : α} (hR : 0 < R) (ha : 0 < a) (hP : 0 < P)
+    (hvol : R ^ 3 = a ^ 3 * ar) (hpow : P ^ 3 = ar ^ 2) : R ^ 2 = a ^ 2 * P := by
+  apply eq_of_cube_eq (by positivity) (by positivity)
+  calc (R ^ 2) ^ 3 = (R ^ 3) ^ 2 := by ring
+    _ = (a ^ 3 * ar) ^ 2 := by rw [hvol]
+    _ = (a ^ 2) ^ 3 * ar ^ 2 := by ring
+    _ = (a ^ 2 * P) ^ 3 := by rw [← hpow]; ring
+
+/-- **needle, thermodynamic factor**: for the prolate spheroid with short semi-axis `a` and long
+semi-axis `c = ar·a`, and the sphere of the same volume (`R³ = a²c`), the generated
+`_thermoFactor` is `prolateArea a c / sphereArea R`.  `ar^(2/3)` enters through its law
+`(ar^(2/3))³ = ar²`. -/
+theorem needle_thermo_is_area_ratio (a ar R : α) (ha : 0 < a) (har : 0 < ar) (hR : 0 < R)
+    (hpi : π ≠ 0)
+    (hvol : R ^ 3 = a ^ 2 * (ar * a))
+    (hP : 0 < (Trans.pow ar (2 / 3) : α)) (hpow : (Trans.pow ar (2 / 3) : α) ^ 3 = ar ^ 2) :
+    needle_thermoFactor ar = prolateArea a (ar * a) / sphereArea R := by
+  have hR2 : R ^ 2 = a ^ 2 * Trans.pow ar (2 / 3) :=
+    sq_of_equal_volume hR ha hP (by rw [hvol]; ring) hpow
+  have he : (1 : α) - a ^ 2 / (ar * a) ^ 2 = 1 - 1 / (ar * ar) := by
+    have := ha.ne'; have := har.ne'; field_simp
+  simp only [needle_thermoFactor, prolateArea, sphereArea, ecc, npow, hR2, he]
+  generalize (Trans.sqrt (1 - 1 / (ar * ar)) : α) = e
+  generalize (Trans.arcsin e : α) = A
+  generalize (Trans.pow ar (2 / 3) : α) = P at hP
+  have h1 : ar * a / (a * e) = ar / e := by rw [mul_comm ar a]; exact mul_div_mul_left _ _ ha.ne'
+  rw [h1]
+  have := ha.ne'; have := hP.ne'
+  field_simp
+  ring
+
+/-- **needle, kinetic factor**: generated `_kineticFactor` = `prolateCap a c / R` with `c = ar·a`
+and `R³ = a²c`; `artanh e = ½(log(1+e) − log(1−e))`. -/
+theorem needle_kinetic_is_capacitance_ratio (a ar R : α) (ha : 0 < a) (har : 0 < ar) (hR : 0 < R)
+    (hvol : R ^ 3 = a ^ 2 * (ar * a))
+    (hC : 0 < (Trans.cbrt (ar * ar) : α)) (hcb : (Trans.cbrt (ar * ar) : α) ^ 3 = ar * ar)
+    (hat : ∀ e : α, Trans.arctanh e = (Trans.log (1 + e) - Trans.log (1 - e)) / 2) :
+    needle_kineticFactor ar = prolateCap a (ar * a) / R := by
+  have he : (1 : α) - a ^ 2 / (ar * a) ^ 2 = 1 - 1 / (ar * ar) := by
+    have := ha.ne'; have := har.ne'; field_simp
+  -- R · cbrt(ar²) = ar · a
+  have hRC : R * Trans.cbrt (ar * ar) = ar * a := by
+    apply eq_of_cube_eq (by positivity) (by positivity)
+    rw [mul_pow, hvol, hcb]; ring
+  simp only [needle_kineticFactor, prolateCap, ecc, npow, he, hat]
+  generalize (Trans.sqrt (1 - 1 / (ar * ar)) : α) = e
+  generalize (Trans.log (1 + e) - Trans.log (1 - e) : α) = L
+  rw [← hRC]
+  generalize (Trans.cbrt (ar * ar) : α) = C at hC
+  have := hR.ne'
+  rw [div_div_eq_mul_div, div_div]
+  by_cases hL : L = 0
+  · simp [hL]
+  · field_simp
+
+/-- **plate, thermodynamic factor**: oblate spheroid with long semi-axis `a = ar·c`, short
+semi-axis `c`, equal-volume sphere `R³ = a²c`; `ar^(4/3)` through `(ar^(4/3))³ = ar⁴`. -/
+theorem plate_thermo_is_area_ratio (c ar R : α) (hc0 : 0 < c) (har : 0 < ar) (hR : 0 < R)
+    (hpi : π ≠ 0)
+    (hvol : R ^ 3 = (ar * c) ^ 2 * c)
+    (hP : 0 < (Trans.pow ar (4 / 3) : α)) (hpow : (Trans.pow ar (4 / 3) : α) ^ 3 = ar ^ 4) :
+    plate_thermoFactor ar = oblateArea (ar * c) c / sphereArea R := by
+  have hR2 : R ^ 2 = c ^ 2 * Trans.pow ar (4 / 3) := by
+    apply eq_of_cube_eq (by positivity) (by positivity)
+    calc (R ^ 2) ^ 3 = (R ^ 3) ^ 2 := by ring
+      _ = ((ar * c) ^ 2 * c) ^ 2 := by rw [hvol]
+      _ = (c ^ 2) ^ 3 * ar ^ 4 := by ring
+      _ = (c ^ 2 * Trans.pow ar (4 / 3)) ^ 3 := by rw [← hpow]; ring
+  have he : (1 : α) - c ^ 2 / (ar * c) ^ 2 = 1 - 1 / (ar * ar) := by
+    have := hc0.ne'; have := har.ne'; field_simp
+  simp only [plate_thermoFactor, oblateArea, sphereArea, ecc, npow, hR2, he]
+  generalize (Trans.sqrt (1 - 1 / (ar * ar)) : α) = e
+  generalize (Trans.log ((1 + e) / (1 - e)) : α) = L
+  generalize (Trans.pow ar (4 / 3) : α) = P at hP
+  have := hc0.ne'; have := hP.ne'
+  by_cases h0 : e = 0
+  · simp only [h0, mul_zero, div_zero, zero_mul, mul_zero, add_zero]; field_simp; ring
+  · field_simp; ring
+
+/-- **plate, kinetic factor**: generated `_kineticFactor` = `oblateCap a c / R` with `a = ar·c`,
+`R³ = a²c`; `arccos e = π/2 − arcsin e`. -/
+theorem plate_kinetic_is_capacitance_ratio (c ar R : α) (hc0 : 0 < c) (har : 0 < ar) (hR : 0 < R)
+    (hvol : R ^ 3 = (ar * c) ^ 2 * c)
+    (hK : 0 < (Trans.cbrt ar : α)) (hcb : (Trans.cbrt ar : α) ^ 3 = ar)
+    (hac : ∀ e : α, Trans.arccos e = π / 2 - Trans.arcsin e) :
+    plate_kineticFactor ar = oblateCap (ar * c) c / R := by
+  have he : (1 : α) - c ^ 2 / (ar * c) ^ 2 = 1 - 1 / (ar * ar) := by
+    have := hc0.ne'; have := har.ne'; field_simp
+  have hRK : R * Trans.cbrt ar = ar * c := by
+    apply eq_of_cube_eq (by positivity) (by positivity)
+    rw [mul_pow, hvol, hcb]; ring
+  simp only [plate_kineticFactor, oblateCap, ecc, npow, he, hac]
+  generalize (Trans.sqrt (1 - 1 / (ar * ar)) : α) = e
+  rw [← hRK, sub_sub_cancel]
+  generalize (Trans.arcsin e : α) = A
+  generalize (Trans.cbrt ar : α) = K at hK
+  have := hR.ne'
+  by_cases hA : A = 0
+  · simp [hA]
+  · field_simp
+
+/-- **cuboid, thermodynamic factor**: cuboid with edges `s, s, ar·s`, sphere of the same volume
+(`4π/3·R³ = s²·ar·s`): generated `_thermoFactor` = `cuboidArea / sphereArea`.
+`Q = (4π/(3ar))^(2/3)` through `Q³ = (4π/(3ar))²`. -/
+theorem cuboid_thermo_is_area_ratio (s ar R : α) (hs : 0 < s) (har : 0 < ar) (hR : 0 < R)
+    (hpi : 0 < π)
+    (hvol : 4 * π / 3 * R ^ 3 = s * s * (ar * s))
+    (hQ : 0 < (Trans.pow (4 * π / (3 * ar)) (2 / 3) : α))
+    (hpow : (Trans.pow (4 * π / (3 * ar)) (2 / 3) : α) ^ 3 = (4 * π / (3 * ar)) ^ 2) :
+    cuboid_thermoFactor ar = cuboidArea s (ar * s) / sphereArea R := by
+  have hR3 : R ^ 3 = 3 * ar * s ^ 3 / (4 * π) := by
+    have := hpi.ne'; field_simp; linarith
+  have hs2 : s ^ 2 = R ^ 2 * Trans.pow (4 * π / (3 * ar)) (2 / 3) := by
+    apply eq_of_cube_eq (by positivity) (by positivity)
+    have := hpi.ne'; have := har.ne'
+    calc (s ^ 2) ^ 3 = (3 * ar * s ^ 3 / (4 * π)) ^ 2 * (4 * π / (3 * ar)) ^ 2 := by field_simp
+      _ = (R ^ 3) ^ 2 * Trans.pow (4 * π / (3 * ar)) (2 / 3) ^ 3 := by rw [hR3, hpow]
+      _ = (R ^ 2 * Trans.pow (4 * π / (3 * ar)) (2 / 3)) ^ 3 := by ring
+  simp only [cuboid_thermoFactor, cuboidArea, sphereArea]
+  have e1 : 2 * (s * s) + 4 * (s * (ar * s)) = (2 * ar + 1) * 2 * s ^ 2 := by ring
+  rw [e1, hs2]
+  generalize (Trans.pow (4 * π / (3 * ar)) (2 / 3) : α) = Q
+  have := hpi.ne'; have := hR.ne'
+  field_simp
+  ring
+
+
+/-! ## the `…Min` constants, value at and below 1, continuity at 1 -/
+
+theorem cbrt_one (hc : ∀ x : α, Trans.cbrt x ^ 3 = x) : (Trans.cbrt 1 : α) = 1 := by
+  have h : (Trans.cbrt 1 : α) ^ 3 = 1 ^ 3 := by rw [hc]; norm_num
+  exact (Odd.strictMono_pow (by decide : Odd 3)).injective h
+
+/-- needle, plate, sphere: the constants the wrappers return at ar ≤ 1 are all 1
+(as computed by `ShapeDescriptionBase.__init__`). -/
+theorem mins_are_one :
+    (needle_eqRadiusFactorMin : α) = 1 ∧ (needle_thermoFactorMin : α) = 1 ∧ (needle_kineticFactorMin : α) = 1
+    ∧ (plate_eqRadiusFactorMin : α) = 1 ∧ (plate_thermoFactorMin : α) = 1 ∧ (plate_kineticFactorMin : α) = 1
+    ∧ (sphere_eqRadiusFactorMin : α) = 1 ∧ (sphere_thermoFactorMin : α) = 1 ∧ (sphere_kineticFactorMin : α) = 1 := by
+  simp only [needle_eqRadiusFactorMin, needle_thermoFactorMin, needle_kineticFactorMin,
+    plate_eqRadiusFactorMin, plate_thermoFactorMin, plate_kineticFactorMin,
+    sphere_eqRadiusFactorMin, sphere_thermoFactorMin, sphere_kineticFactorMin, and_self]
+
+/-- needle / plate eq.-radius factor: the constant is the formula at 1 (`cbrt 1 = 1`). -/
+theorem needle_eqRadiusFactorMin_eq (hc : ∀ x : α, Trans.cbrt x ^ 3 = x) :
+    (needle_eqRadiusFactorMin : α) = needle_eqRadius 1 := by
+  simp only [needle_eqRadiusFactorMin, needle_eqRadius, cbrt_one hc]
+
+theorem plate_eqRadiusFactorMin_eq (hc : ∀ x : α, Trans.cbrt x ^ 3 = x) :
+    (plate_eqRadiusFactorMin : α) = plate_eqRadius 1 := by
+  simp only [plate_eqRadiusFactorMin, plate_eqRadius, npow, mul_one, cbrt_one hc]
+
+theorem sphere_mins_eq (ar : α) :
+    (sphere_eqRadiusFactorMin : α) = sphere_eqRadius ar ∧ (sphere_thermoFactorMin : α) = sphere_thermoFactor ar
+    ∧ (sphere_kineticFactorMin : α) = sphere_kineticFactor ar := by
+  simp only [sphere_eqRadiusFactorMin, sphere_eqRadius, sphere_thermoFactorMin, sphere_thermoFactor,
+    sphere_kineticFactorMin, sphere_kineticFactor, and_self]
+
+/-- **cuboid, eq.-radius factor: the constant IS the formula at 1** (true of the repaired code;
+before the repair the constant was 1, see `cuboid_eqRadius_at_one_ne_one`). -/
+theorem cuboid_eqRadiusFactorMin_eq : (cuboid_eqRadiusFactorMin : α) = cuboid_eqRadius 1 := by
+  simp only [cuboid_eqRadiusFactorMin, cuboid_eqRadius, mul_one]
+
+/-- **cuboid, thermodynamic factor: the constant IS the formula at 1** -/
+theorem cuboid_thermoFactorMin_eq : (cuboid_thermoFactorMin : α) = cuboid_thermoFactor 1 := by
+  simp only [cuboid_thermoFactorMin, cuboid_thermoFactor, mul_one]
+  norm_num
+
+/-- the cuboid formulas at 1 are not 1: with the constants taken as 1 (the code before the
+repair, `eqRadiusFactorMin = self.eqRadiusFactor(1)`) the eq.-radius factor jumped at ar = 1. -/
+theorem cuboid_eqRadius_at_one_ne_one (hc : ∀ x : α, Trans.cbrt x ^ 3 = x) (hpi : 3 < π) :
+    (cuboid_eqRadius 1 : α) ≠ 1 := by
+  simp only [cuboid_eqRadius, mul_one]
+  intro h
+  have h3 := hc (3 / (4 * π))
+  rw [h] at h3
+  have hp : (0 : α) < 4 * π := by linarith
+  have : (3 : α) = 4 * π := by
+    have h4 := h3.symm
+    rw [div_eq_iff hp.ne'] at h4; linarith
+  linarith
+
+/-- … and the thermodynamic factor: `formula(1)³ = 6/π`, which is 1 only if π = 6. -/
+theorem cuboid_thermo_at_one_cubed (hpi : π ≠ 0)
+    (hpow : (Trans.pow (4 * π / 3) (2 / 3) : α) ^ 3 = (4 * π / 3) ^ 2) :
+    (cuboid_thermoFactor 1 : α) ^ 3 = 6 / π := by
+  simp only [cuboid_thermoFactor, mul_one, mul_pow, hpow]
+  field_simp
+  ring
+
+theorem cuboid_thermo_at_one_ne_one (hpi0 : 0 < π) (hpi : π < 6)
+    (hpow : (Trans.pow (4 * π / 3) (2 / 3) : α) ^ 3 = (4 * π / 3) ^ 2) :
+    (cuboid_thermoFactor 1 : α) ≠ 1 := by
+  intro h
+  have h3 := cuboid_thermo_at_one_cubed hpi0.ne' hpow
+  rw [h, one_pow, eq_div_iff hpi0.ne'] at h3
+  linarith
+
+/-! ## wrappers: clamp, value at ar ≤ 1, scalar = array, no mutation -/
+
+theorem clamp_of_lt {ar : α} (h : ar < 1) : clamp ar = 1 := by simp [clamp, h]
+
+theorem clamp_of_ge {ar : α} (h : 1 ≤ ar) : clamp ar = ar := by simp [clamp, not_lt.mpr h]
+
+theorem clamp_eq_max (ar : α) : clamp ar = max ar 1 := by
+  unfold clamp; split
+  · next h => exact (max_eq_right h.le).symm
+  · next h => exact (max_eq_left (not_lt.mp h)).symm
+
+theorem one_le_clamp (ar : α) : 1 ≤ clamp ar := by rw [clamp_eq_max]; exact le_max_right _ _
+
+/-- **clamp without mutation**: the caller's array after `_processAspectRatio` is the array
+that was passed in (model of the repaired code; correspondence compares the real argument
+arrays before and after every call). -/
+theorem processAspectRatio_caller_unchanged (ars : List α) : (processAspectRatio ars).2 = ars := rfl
+
+theorem processAspectRatio_clamps (ars : List α) :
+    (processAspectRatio ars).1 = ars.map (fun a => max a 1) := by
+  simp [processAspectRatio, clamp_eq_max]
+
+/-- closed form of the wrapper called with a scalar -/
+theorem wrapScalar_eq (fmin : α) (f : α → α) (ar : α) :
+    wrapScalar fmin f ar = if 1 < clamp ar then f (clamp ar) else fmin := by
+  unfold wrapScalar wrapArr processAspectRatio
+  by_cases h : 1 < clamp ar
+  · simp [h, scatter, List.filter]
+  · simp [h, scatter, List.filter]
+
+/-- `factor = fmin·ones; factor[ar > 1] = f(ar[ar > 1])` is the element-wise choice -/
+theorem scatter_spec (fmin : α) (f : α → α) (a : List α) :
+    scatter (a.map (fun _ => fmin * 1)) (a.map (fun x => decide (1 < x)))
+        ((a.filter (fun x => decide (1 < x))).map f)
+      = a.map (fun x => if 1 < x then f x else fmin) := by
+  induction a with
+  | nil => simp [scatter]
+  | cons x xs ih =>
+    by_cases h : 1 < x
+    · simp only [List.map_cons, h, decide_true, List.filter_cons_of_pos, scatter, if_true, ih]
+    · simp only [List.map_cons, h, decide_false, Bool.false_eq_true, not_false_eq_true,
+        List.filter_cons_of_neg, scatter, if_false]
+      rw [ih, mul_one]
+
+/-- **scalar = array**: the array call is the scalar call applied element by element. -/
+theorem wrapArr_eq_map (fmin : α) (f : α → α) (ars : List α) :
+    wrapArr fmin f ars = ars.map (wrapScalar fmin f) := by
+  have := scatter_spec fmin f (ars.map clamp)
+  unfold wrapArr processAspectRatio
+  dsimp only
+  rw [this, List.map_map]
+  apply List.map_congr_left
+  intro a _
+  simp [wrapScalar_eq]
+
+/-- **value at ar ≤ 1**: the wrappers return the `…Min` constant. -/
+theorem wrapScalar_le_one (fmin : α) (f : α → α) {ar : α} (h : ar ≤ 1) :
+    wrapScalar fmin f ar = fmin := by
+  rw [wrapScalar_eq]
+  have : clamp ar = 1 := by
+    rcases h.lt_or_eq with h | h
+    · exact clamp_of_lt h
+    · rw [h]; exact clamp_of_ge le_rfl
+  simp [this]
+
+/-- above 1 the wrapper is the inner formula -/
+theorem wrapScalar_gt_one (fmin : α) (f : α → α) {ar : α} (h : 1 < ar) :
+    wrapScalar fmin f ar = f ar := by
+  rw [wrapScalar_eq, clamp_of_ge h.le]; simp [h]
+
+/-- **below 1 is treated as 1** -/
+theorem wrapScalar_below_one_as_one (fmin : α) (f : α → α) {ar : α} (h : ar < 1) :
+    wrapScalar fmin f ar = wrapScalar fmin f 1 := by
+  rw [wrapScalar_le_one fmin f h.le, wrapScalar_le_one fmin f le_rfl]
+
+/-- **continuity at 1 ⇔ `…Min = formula(1)`** (algebraic form): the wrapper is the inner formula
+composed with the clamp — hence as continuous as the formula — exactly when the constant is the
+formula at 1. -/
+theorem wrapScalar_eq_comp_clamp_iff (fmin : α) (f : α → α) :
+    (∀ ar, wrapScalar fmin f ar = f (clamp ar)) ↔ fmin = f 1 := by
+  constructor
+  · intro h
+    have := h 1
+    rwa [wrapScalar_le_one fmin f le_rfl, clamp_of_ge le_rfl] at this
+  · intro h ar
+    rw [wrapScalar_eq]
+    split
+    · rfl
+    · next hn =>
+      have : clamp ar = 1 := le_antisymm (not_lt.mp hn) (one_le_clamp ar)
+      rw [this, h]
+
+/-- cuboid eq.-radius and thermodynamic factor: the public functions are the formulas composed
+with the clamp (no jump at 1). -/
+theorem cuboid_wrappers_no_jump (ar : α) :
+    wrapScalar cuboid_eqRadiusFactorMin cuboid_eqRadius ar = cuboid_eqRadius (clamp ar)
+    ∧ wrapScalar cuboid_thermoFactorMin cuboid_thermoFactor ar = cuboid_thermoFactor (clamp ar) :=
+  ⟨(wrapScalar_eq_comp_clamp_iff _ _).mpr cuboid_eqRadiusFactorMin_eq ar,
+   (wrapScalar_eq_comp_clamp_iff _ _).mpr cuboid_thermoFactorMin_eq ar⟩
+
+/-- the same for the needle / plate eq.-radius factor -/
+theorem needle_plate_eqRadius_no_jump (hc : ∀ x : α, Trans.cbrt x ^ 3 = x) (ar : α) :
+    wrapScalar needle_eqRadiusFactorMin needle_eqRadius ar = needle_eqRadius (clamp ar)
+    ∧ wrapScalar plate_eqRadiusFactorMin plate_eqRadius ar = plate_eqRadius (clamp ar) :=
+  ⟨(wrapScalar_eq_comp_clamp_iff _ _).mpr (needle_eqRadiusFactorMin_eq hc) ar,
+   (wrapScalar_eq_comp_clamp_iff _ _).mpr (plate_eqRadiusFactorMin_eq hc) ar⟩
+
+/-- `normalRadii`: scalar call = formula at the clamped ratio; array call = element-wise. -/
+theorem radiiScalar_eq (f : α → List α) (ar : α) : radiiScalar f ar = f (clamp ar) := by
+  simp [radiiScalar, radiiArr, processAspectRatio]
+
+theorem radiiArr_eq_map (f : α → List α) (ars : List α) :
+    radiiArr f ars = ars.map (radiiScalar f) := by
+  simp [radiiArr, processAspectRatio, radiiScalar_eq, List.map_map]
+
+/-- the semi-axes theorems reach the public `normalRadii`: for every input (also below 1) the
+needle semi-axes returned have unit volume and aspect ratio `max ar 1`. -/
+theorem needle_normalRadii_public (ar : α) (hc : ∀ x : α, Trans.cbrt x ^ 3 = x) (hpi : π ≠ 0) :
+    radiiScalar needle_normalRadii_all ar
+      = [needle_normalRadii_r0 (max ar 1), needle_normalRadii_r1 (max ar 1), needle_normalRadii_r2 (max ar 1)]
+    ∧ 4 * π / 3 * (needle_normalRadii_r0 (max ar 1) * needle_normalRadii_r1 (max ar 1)
+        * needle_normalRadii_r2 (max ar 1)) = 1
+    ∧ needle_normalRadii_r2 (max ar 1) / needle_normalRadii_r0 (max ar 1) = max ar 1 := by
+  have h0 : max ar 1 ≠ 0 := (lt_of_lt_of_le one_pos (le_max_right ar 1)).ne'
+  refine ⟨by rw [radiiScalar_eq, clamp_eq_max]; rfl, needle_unit_volume _ hc h0 hpi,
+    (needle_aspect _ hc h0 hpi).1⟩
+
 end generic
+
+/-! ## critical-radius search (`KawinV.Bisect`) -/
+section bisect
+variable {α : Type} [Field α] [LinearOrder α] [IsStrictOrderedRing α]
+
+theorem absS_eq_abs (x : α) : absS x = |x| := by
+  unfold absS; split
+  · next h => exact (abs_of_neg h).symm
+  · next h => exact (abs_of_nonneg (not_lt.mp h)).symm
+
+/-- the stored objective values belong to the stored radii and `midR` is the midpoint -/
+def Consistent (Rs : α) (tf : α → α) (s : St α) : Prop :=
+  s.fMin = obj Rs tf s.minR ∧ s.fMax = obj Rs tf s.maxR ∧ s.fMid = obj Rs tf s.midR
+    ∧ s.midR = (s.minR + s.maxR) / 2
+
+theorem init_consistent (Rs Rmax : α) (tf : α → α) : Consistent Rs tf (init Rs Rmax tf) := by
+  simp [Consistent, init]
+
+theorem step_consistent (Rs : α) (tf : α → α) (s : St α) (h : Consistent Rs tf s) :
+    Consistent Rs tf (step Rs tf s) := by
+  obtain ⟨h1, h2, h3, h4⟩ := h
+  unfold step Consistent
+  by_cases hc : 0 ≤ s.fMin * s.fMid
+  · simp only [hc, if_true]; simp [← h2, ← h3]
+  · simp only [hc, if_false]; simp [← h1, ← h3]
+
+/-- an invariant of the loop body holds in the state the loop stops in -/
+theorem loop_final_inv (tol Rs : α) (tf : α → α) (Inv : St α → Prop)
+    (hstep : ∀ s, Inv s → tol < absS s.fMid → Inv (step Rs tf s)) :
+    ∀ (fuel n : Nat) (s : St α), Inv s → Inv (loop tol Rs tf fuel n s).final := by
+  intro fuel
+  induction fuel with
+  | zero => intro n s h; simpa [loop] using h
+  | succ k ih =>
+    intro n s h
+    unfold loop
+    split
+    · next hgt => exact ih (n+1) _ (hstep s h hgt)
+    · exact h
+
+/-- **result specification** of the loop: either the tolerance test passed on the returned radius,
+or all the fuel was used and `RcritSphere` is returned. -/
+theorem loop_spec (tol Rs : α) (tf : α → α) :
+    ∀ (fuel n : Nat) (s : St α), s.fMid = obj Rs tf s.midR →
+      ((loop tol Rs tf fuel n s).fallback = false
+          ∧ |obj Rs tf (loop tol Rs tf fuel n s).r| ≤ tol
+          ∧ (loop tol Rs tf fuel n s).r = (loop tol Rs tf fuel n s).final.midR
+          ∧ (loop tol Rs tf fuel n s).iters < n + fuel)
+      ∨ ((loop tol Rs tf fuel n s).fallback = true
+          ∧ (loop tol Rs tf fuel n s).iters = n + fuel
+          ∧ (loop tol Rs tf fuel n s).r = Rs) := by
+  intro fuel
+  induction fuel with
+  | zero => intro n s _; right; simp [loop]
+  | succ k ih =>
+    intro n s hs
+    unfold loop
+    split
+    · next hgt =>
+      have hs' : (step Rs tf s).fMid = obj Rs tf (step Rs tf s).midR := by simp [step]
+      rcases ih (n+1) _ hs' with h | h
+      · left; refine ⟨h.1, h.2.1, h.2.2.1, ?_⟩; have := h.2.2.2; omega
+      · right; refine ⟨h.1, ?_, h.2.2⟩; have := h.2.1; omega
+    · next hle =>
+      left
+      refine ⟨rfl, ?_, rfl, by simp⟩
+      rw [← hs, ← absS_eq_abs]
+      exact not_lt.mp hle
+
+/-- **`_findRcrit`, result**: the returned radius `r` satisfies `|r/(Rs·f(r)) − 1| ≤ tol`
+(after fewer than 100 iterations), **or** 100 iterations were used and the fallback
+`RcritSphere` is returned. -/
+theorem findRcrit_spec (tol Rs Rmax : α) (tf : α → α) :
+    ((findRcrit tol Rs Rmax tf).fallback = false
+        ∧ |(findRcrit tol Rs Rmax tf).r / (Rs * tf (findRcrit tol Rs Rmax tf).r) - 1| ≤ tol
+        ∧ (findRcrit tol Rs Rmax tf).iters < 100)
+    ∨ ((findRcrit tol Rs Rmax tf).fallback = true
+        ∧ (findRcrit tol Rs Rmax tf).iters = 100
+        ∧ (findRcrit tol Rs Rmax tf).r = Rs) := by
+  have h := loop_spec tol Rs tf 100 0 (init Rs Rmax tf) (by simp [init])
+  unfold findRcrit
+  rcases h with h | h
+  · left; refine ⟨h.1, ?_, by simpa using h.2.2.2⟩; simpa [obj] using h.2.1
+  · right; exact ⟨h.1, by simpa using h.2.1, h.2.2⟩
+
+/-- the bracket invariant: the lower objective value is non-zero and the two ends do not have
+the same strict sign -/
+def Bracket (s : St α) : Prop := s.fMin ≠ 0 ∧ s.fMin * s.fMax ≤ 0
+
+/-- **the bracket keeps `fMin·fMax ≤ 0`**: one execution of the loop body (entered only when
+`|fMid| > tol ≥ 0`) preserves the bracket invariant. -/
+theorem step_bracket (tol Rs : α) (tf : α → α) (htol : 0 ≤ tol) (s : St α)
+    (h : Bracket s) (hgt : tol < absS s.fMid) : Bracket (step Rs tf s) := by
+  obtain ⟨h0, hle⟩ := h
+  have hmid : s.fMid ≠ 0 := by
+    intro hz
+    rw [hz] at hgt
+    have : absS (0 : α) = 0 := by simp [absS]
+    rw [this] at hgt
+    exact absurd hgt (not_lt.mpr htol)
+  unfold step Bracket
+  by_cases hc : 0 ≤ s.fMin * s.fMid
+  · simp only [hc, if_true]
+    refine ⟨hmid, ?_⟩
+    -- fMin and fMid have the same strict sign, fMin and fMax do not
+    have hpos : 0 < s.fMin * s.fMid := lt_of_le_of_ne hc (Ne.symm (mul_ne_zero h0 hmid))
+    by_contra hcon
+    have hcon : 0 < s.fMid * s.fMax := not_le.mp hcon
+    have : 0 < (s.fMin * s.fMid) * (s.fMid * s.fMax) := mul_pos hpos hcon
+    have h2 : (s.fMin * s.fMid) * (s.fMid * s.fMax) = (s.fMin * s.fMax) * (s.fMid * s.fMid) := by ring
+    have h3 : 0 < s.fMid * s.fMid := mul_self_pos.mpr hmid
+    have : (s.fMin * s.fMax) * (s.fMid * s.fMid) ≤ 0 := mul_nonpos_of_nonpos_of_nonneg hle h3.le
+    linarith
+  · simp only [hc, if_false]
+    exact ⟨h0, (not_le.mp hc).le⟩
+
+/-- the root at the lower end is the one case the invariant needs excluded: with `fMin = 0`
+the first test `fMin*fMid >= 0` holds trivially and the bracket moves off the root. -/
+example : ∃ s : St ℚ, s.fMin * s.fMax ≤ 0 ∧ (1:ℚ)/1000 < absS s.fMid
+    ∧ ¬ ((step 1 (fun _ => 1) s).fMin * (step 1 (fun _ => 1) s).fMax ≤ 0) :=
+  ⟨⟨1, 3, 2, 0, 2, 1⟩, by norm_num, by norm_num [absS], by norm_num [step, obj]⟩
+
+/-- **the bracket halves** -/
+theorem step_width (Rs : α) (tf : α → α) (s : St α) (hm : s.midR = (s.minR + s.maxR) / 2) :
+    (step Rs tf s).maxR - (step Rs tf s).minR = (s.maxR - s.minR) / 2 := by
+  unfold step
+  by_cases hc : 0 ≤ s.fMin * s.fMid <;> simp only [hc, if_true, if_false, hm] <;> ring
+
+/-- the bracket stays inside the initial one -/
+theorem step_nested (Rs : α) (tf : α → α) (s : St α) (hm : s.midR = (s.minR + s.maxR) / 2)
+    (hle : s.minR ≤ s.maxR) :
+    s.minR ≤ (step Rs tf s).minR ∧ (step Rs tf s).minR ≤ (step Rs tf s).maxR
+      ∧ (step Rs tf s).maxR ≤ s.maxR := by
+  unfold step
+  by_cases hc : 0 ≤ s.fMin * s.fMid <;> simp only [hc, if_true, if_false, hm] <;>
+    refine ⟨?_, ?_, ?_⟩ <;> linarith
+
+/-- width after the loop: `(maxR − minR)·2^iters` is the initial width -/
+theorem loop_width (tol Rs : α) (tf : α → α) (W : α) :
+    ∀ (fuel n : Nat) (s : St α), Consistent Rs tf s → (s.maxR - s.minR) * 2 ^ n = W →
+      ((loop tol Rs tf fuel n s).final.maxR - (loop tol Rs tf fuel n s).final.minR)
+        * 2 ^ (loop tol Rs tf fuel n s).iters = W := by
+  intro fuel
+  induction fuel with
+  | zero => intro n s _ h; simpa [loop] using h
+  | succ k ih =>
+    intro n s hc h
+    unfold loop
+    split
+    · apply ih (n+1) _ (step_consistent Rs tf s hc)
+      rw [step_width Rs tf s hc.2.2.2, pow_succ, ← h]; ring
+    · simpa using h
+
+/-- **`_findRcrit`, bracket**: if the objective is non-zero at `RcritSphere`, does not have the
+same strict sign at `Rmax`, and `RcritSphere ≤ Rmax`, then when the search stops the stored
+bracket `[minR, maxR]`
+* still has objective values of opposite (or zero upper) sign at its ends (`f(minR)·f(maxR) ≤ 0`),
+* has width `(Rmax − RcritSphere) / 2^iters`,
+* lies inside `[RcritSphere, Rmax]` and contains the radius that is returned on convergence. -/
+theorem findRcrit_bracket (tol Rs Rmax : α) (tf : α → α) (htol : 0 ≤ tol) (hle : Rs ≤ Rmax)
+    (h0 : obj Rs tf Rs ≠ 0) (hsign : obj Rs tf Rs * obj Rs tf Rmax ≤ 0) :
+    let o := findRcrit tol Rs Rmax tf
+    obj Rs tf o.final.minR * obj Rs tf o.final.maxR ≤ 0
+    ∧ (o.final.maxR - o.final.minR) * 2 ^ o.iters = Rmax - Rs
+    ∧ Rs ≤ o.final.minR ∧ o.final.minR ≤ o.final.maxR ∧ o.final.maxR ≤ Rmax
+    ∧ (o.fallback = false → o.final.minR ≤ o.r ∧ o.r ≤ o.final.maxR) := by
+  intro o
+  -- one combined invariant
+  let Inv : St α → Prop := fun s =>
+    Consistent Rs tf s ∧ Bracket s ∧ Rs ≤ s.minR ∧ s.minR ≤ s.maxR ∧ s.maxR ≤ Rmax
+  have hInv0 : Inv (init Rs Rmax tf) :=
+    ⟨init_consistent Rs Rmax tf, ⟨by simpa [init] using h0, by simpa [init] using hsign⟩,
+      by simp [init], by simpa [init] using hle, by simp [init]⟩
+  have hstep : ∀ s, Inv s → tol < absS s.fMid → Inv (step Rs tf s) := by
+    intro s ⟨hc, hb, h1, h2, h3⟩ hgt
+    obtain ⟨n1, n2, n3⟩ := step_nested Rs tf s hc.2.2.2 h2
+    exact ⟨step_consistent Rs tf s hc, step_bracket tol Rs tf htol s hb hgt,
+      le_trans h1 n1, n2, le_trans n3 h3⟩
+  have hfin : Inv o.final := loop_final_inv tol Rs tf Inv hstep 100 0 _ hInv0
+  obtain ⟨hc, hb, h1, h2, h3⟩ := hfin
+  have hw := loop_width tol Rs tf (Rmax - Rs) 100 0 (init Rs Rmax tf)
+    (init_consistent Rs Rmax tf) (by simp [init])
+  refine ⟨?_, hw, h1, h2, h3, ?_⟩
+  · rw [← hc.1, ← hc.2.1]; exact hb.2
+  · intro hf
+    rcases loop_spec tol Rs tf 100 0 (init Rs Rmax tf) (by simp [init]) with h | h
+    · have hr : o.r = o.final.midR := h.2.2.1
+      rw [hr, hc.2.2.2]
+      constructor <;> linarith
+    · have : o.fallback = true := h.1
+      rw [hf] at this; exact absurd this (by simp)
+
+/-- **scalar aspect ratio**: `_findRcritScalar` returns `RcritSphere·f`, which is an exact root of
+the objective when the thermodynamic factor does not depend on the radius. -/
+theorem findRcritScalar_root (Rs t : α) (hRs : Rs ≠ 0) (ht : t ≠ 0) :
+    obj Rs (fun _ => t) (findRcritScalar Rs (fun _ => t)) = 0 := by
+  simp only [obj, findRcritScalar]
+  field_simp
+  ring
+
+theorem findRcritScalar_eq (Rs : α) (tf : α → α) : findRcritScalar Rs tf = Rs * tf Rs := rfl
+
+end bisect
+
+/-! ## the real numbers: the atoms are Mathlib's functions, their laws are proved -/
+section real
+open Real
+
+noncomputable instance instTransReal : Trans ℝ where
+  pi := Real.pi
+  sqrt := Real.sqrt
+  cbrt := fun x => if 0 ≤ x then x ^ ((1:ℝ)/3) else -((-x) ^ ((1:ℝ)/3))
+  exp := Real.exp
+  log := Real.log
+  sin := Real.sin
+  cos := Real.cos
+  tan := Real.tan
+  arcsin := Real.arcsin
+  arccos := Real.arccos
+  arctan := Real.arctan
+  tanh := Real.tanh
+  arctanh := fun x => (Real.log (1 + x) - Real.log (1 - x)) / 2
+  arccosh := fun x => Real.log (x + Real.sqrt (x ^ 2 - 1))
+  pow := fun x y => x ^ y
+  abs := fun x => |x|
+
+theorem rpow_third_cube {x : ℝ} (hx : 0 ≤ x) : (x ^ ((1:ℝ)/3)) ^ 3 = x := by
+  rw [← Real.rpow_natCast, ← Real.rpow_mul hx]; norm_num
+
+/-- law of the cube-root atom over ℝ -/
+theorem real_cbrt_cube (x : ℝ) : (Trans.cbrt x : ℝ) ^ 3 = x := by
+  show (if 0 ≤ x then x ^ ((1:ℝ)/3) else -((-x) ^ ((1:ℝ)/3))) ^ 3 = x
+  split
+  · next h => exact rpow_third_cube h
+  · next h =>
+    have : 0 ≤ -x := by linarith
+    rw [neg_pow, rpow_third_cube this]; norm_num
+
+theorem real_cbrt_pos {x : ℝ} (hx : 0 < x) : 0 < (Trans.cbrt x : ℝ) := by
+  show 0 < (if 0 ≤ x then x ^ ((1:ℝ)/3) else -((-x) ^ ((1:ℝ)/3)))
+  rw [if_pos hx.le]; exact Real.rpow_pos_of_pos hx _
+
+theorem real_pow_pos {x : ℝ} (hx : 0 < x) (y : ℝ) : 0 < (Trans.pow x y : ℝ) :=
+  Real.rpow_pos_of_pos hx y
+
+/-- law of `x^(2/3)` over ℝ -/
+theorem real_pow_two_thirds {x : ℝ} (hx : 0 ≤ x) : (Trans.pow x (2 / 3) : ℝ) ^ 3 = x ^ 2 := by
+  show (x ^ ((2:ℝ)/3)) ^ 3 = x ^ 2
+  rw [← Real.rpow_natCast, ← Real.rpow_mul hx, ← Real.rpow_natCast]; norm_num
+
+theorem real_pow_four_thirds {x : ℝ} (hx : 0 ≤ x) : (Trans.pow x (4 / 3) : ℝ) ^ 3 = x ^ 4 := by
+  show (x ^ ((4:ℝ)/3)) ^ 3 = x ^ 4
+  rw [← Real.rpow_natCast, ← Real.rpow_mul hx, ← Real.rpow_natCast]; norm_num
+
+theorem real_arccos (e : ℝ) : (Trans.arccos e : ℝ) = Trans.pi / 2 - Trans.arcsin e :=
+  Real.arccos_eq_pi_div_two_sub_arcsin e
+
+theorem real_arctanh (e : ℝ) :
+    (Trans.arctanh e : ℝ) = (Trans.log (1 + e) - Trans.log (1 - e)) / 2 := rfl
+
+theorem real_pi_pos : (0:ℝ) < Trans.pi := Real.pi_pos
+
+/-- radius of the sphere with the volume of the spheroid with semi-axes (x, y, z) -/
+noncomputable def eqVolRadius (x y z : ℝ) : ℝ := (x * y * z) ^ ((1:ℝ)/3)
+
+theorem eqVolRadius_cube {x y z : ℝ} (h : 0 ≤ x * y * z) : eqVolRadius x y z ^ 3 = x * y * z :=
+  rpow_third_cube h
+
+/-- **semi-axes over ℝ**, no hypotheses on atoms: for every aspect ratio `ar > 0` the needle,
+plate and sphere semi-axes enclose volume 1 and the cuboid edges multiply to 1; long/short = ar. -/
+theorem real_unit_volume (ar : ℝ) (har : 0 < ar) :
+    4 * Real.pi / 3 * (needle_normalRadii_r0 ar * needle_normalRadii_r1 ar * needle_normalRadii_r2 ar) = 1
+    ∧ 4 * Real.pi / 3 * (plate_normalRadii_r0 ar * plate_normalRadii_r1 ar * plate_normalRadii_r2 ar) = 1
+    ∧ 4 * Real.pi / 3 * (sphere_normalRadii_r0 ar * sphere_normalRadii_r1 ar * sphere_normalRadii_r2 ar) = 1
+    ∧ cuboid_normalRadii_r0 ar * cuboid_normalRadii_r1 ar * cuboid_normalRadii_r2 ar = 1
+    ∧ needle_normalRadii_r2 ar / needle_normalRadii_r0 ar = ar
+    ∧ plate_normalRadii_r0 ar / plate_normalRadii_r2 ar = ar
+    ∧ cuboid_normalRadii_r2 ar / cuboid_normalRadii_r0 ar = ar :=
+  ⟨needle_unit_volume ar real_cbrt_cube har.ne' Real.pi_pos.ne',
+   plate_unit_volume ar real_cbrt_cube har.ne' Real.pi_pos.ne',
+   (sphere_unit_volume ar real_cbrt_cube Real.pi_pos.ne').1,
+   cuboid_unit_volume ar real_cbrt_cube har.ne',
+   (needle_aspect ar real_cbrt_cube har.ne' Real.pi_pos.ne').1,
+   (plate_aspect ar real_cbrt_cube har.ne' Real.pi_pos.ne').1,
+   (cuboid_aspect ar real_cbrt_cube har.ne').1⟩
+
+/-- **needle over ℝ**: thermodynamic factor = area of the prolate spheroid (a, a, ar·a) / area of
+the equal-volume sphere; kinetic factor = its capacitance / the equal-volume radius. -/
+theorem real_needle_factors (a ar : ℝ) (ha : 0 < a) (har : 0 < ar) :
+    needle_thermoFactor ar = prolateArea a (ar * a) / sphereArea (eqVolRadius a a (ar * a))
+    ∧ needle_kineticFactor ar = prolateCap a (ar * a) / eqVolRadius a a (ar * a) := by
+  have hv : 0 < a * a * (ar * a) := by positivity
+  have hR : 0 < eqVolRadius a a (ar * a) := Real.rpow_pos_of_pos hv _
+  have hvol : eqVolRadius a a (ar * a) ^ 3 = a ^ 2 * (ar * a) := by
+    rw [eqVolRadius_cube hv.le]; ring
+  exact ⟨needle_thermo_is_area_ratio a ar _ ha har hR Real.pi_pos.ne' hvol
+      (real_pow_pos har _) (real_pow_two_thirds har.le),
+    needle_kinetic_is_capacitance_ratio a ar _ ha har hR hvol
+      (real_cbrt_pos (by positivity)) (real_cbrt_cube _) real_arctanh⟩
+
+/-- **plate over ℝ**: oblate spheroid (ar·c, ar·c, c). -/
+theorem real_plate_factors (c ar : ℝ) (hc : 0 < c) (har : 0 < ar) :
+    plate_thermoFactor ar = oblateArea (ar * c) c / sphereArea (eqVolRadius (ar * c) (ar * c) c)
+    ∧ plate_kineticFactor ar = oblateCap (ar * c) c / eqVolRadius (ar * c) (ar * c) c := by
+  have hv : 0 < (ar * c) * (ar * c) * c := by positivity
+  have hR : 0 < eqVolRadius (ar * c) (ar * c) c := Real.rpow_pos_of_pos hv _
+  have hvol : eqVolRadius (ar * c) (ar * c) c ^ 3 = (ar * c) ^ 2 * c := by
+    rw [eqVolRadius_cube hv.le]; ring
+  exact ⟨plate_thermo_is_area_ratio c ar _ hc har hR Real.pi_pos.ne' hvol
+      (real_pow_pos har _) (real_pow_four_thirds har.le),
+    plate_kinetic_is_capacitance_ratio c ar _ hc har hR hvol
+      (real_cbrt_pos har) (real_cbrt_cube _) real_arccos⟩
+
+/-- **cuboid over ℝ**: thermodynamic factor = area of the cuboid (s, s, ar·s) / area of the sphere
+of the same volume `s³·ar`. -/
+theorem real_cuboid_thermo (s ar : ℝ) (hs : 0 < s) (har : 0 < ar) :
+    cuboid_thermoFactor ar
+      = cuboidArea s (ar * s) / sphereArea ((3 * (s * s * (ar * s)) / (4 * Real.pi)) ^ ((1:ℝ)/3)) := by
+  have hpi := Real.pi_pos
+  have hv : 0 < 3 * (s * s * (ar * s)) / (4 * Real.pi) := by positivity
+  have hx : 0 < 4 * Real.pi / (3 * ar) := by positivity
+  apply cuboid_thermo_is_area_ratio s ar _ hs har (Real.rpow_pos_of_pos hv _) hpi
+  · rw [rpow_third_cube hv.le]
+    show 4 * Real.pi / 3 * (3 * (s * s * (ar * s)) / (4 * Real.pi)) = s * s * (ar * s)
+    field_simp
+  · exact real_pow_pos hx _
+  · exact real_pow_two_thirds hx.le
+
+/-- over ℝ the cuboid formulas at 1 are not 1 (π > 3, π < 6): with the constants equal to 1 — the
+code before the repair — eq.-radius and thermodynamic factor were discontinuous at ar = 1. -/
+theorem real_cuboid_at_one_ne_one :
+    (cuboid_eqRadius (1:ℝ)) ≠ 1 ∧ (cuboid_thermoFactor (1:ℝ)) ≠ 1 := by
+  have h4 : Real.pi < 6 := by linarith [Real.pi_lt_four]
+  exact ⟨cuboid_eqRadius_at_one_ne_one real_cbrt_cube Real.pi_gt_three,
+    cuboid_thermo_at_one_ne_one Real.pi_pos h4
+      (real_pow_two_thirds (by have := Real.pi_pos; positivity))⟩
+
+theorem real_eqRadius_mins :
+    (needle_eqRadiusFactorMin : ℝ) = needle_eqRadius 1 ∧ (plate_eqRadiusFactorMin : ℝ) = plate_eqRadius 1 :=
+  ⟨needle_eqRadiusFactorMin_eq real_cbrt_cube, plate_eqRadiusFactorMin_eq real_cbrt_cube⟩
+
+end real
+
+/-! ## non-vacuity: the hypothesis sets are satisfiable -/
+
+-- atoms' laws: ℝ (theorems `real_cbrt_cube`, `real_pow_two_thirds`, `real_arccos`, `real_arctanh` above)
+example : ∃ a ar R : ℝ, 0 < a ∧ 0 < ar ∧ 0 < R ∧ R ^ 3 = a ^ 2 * (ar * a) :=
+  ⟨1, 8, 2, by norm_num, by norm_num, by norm_num, by norm_num⟩
+-- bracket hypotheses of `findRcrit_bracket`: tf ≡ 2, Rs = 1, Rmax = 4: f(1) = -1/2, f(4) = 1
+example : (0:ℚ) ≤ 1/1000 ∧ (1:ℚ) ≤ 4 ∧ obj (1:ℚ) (fun _ => 2) 1 ≠ 0
+    ∧ obj (1:ℚ) (fun _ => 2) 1 * obj (1:ℚ) (fun _ => 2) 4 ≤ 0 := by
+  norm_num [obj]
+-- and the search on it converges to the root 2 at once
+example : (findRcrit (1/1000 : ℚ) 1 3 (fun _ => 2)).r = 2
+    ∧ (findRcrit (1/1000 : ℚ) 1 3 (fun _ => 2)).fallback = false := by
+  constructor <;> · unfold findRcrit loop; norm_num [init, obj, absS]
+-- the wrapper model on a concrete array: below 1, at 1, above 1
+example : wrapArr (7:ℚ) (fun x => x * 10) [1/2, 1, 3] = [7, 7, 30] := by
+  norm_num [wrapArr, processAspectRatio, clamp, scatter, List.filter]
 
 end KawinV.Props.C15
